@@ -202,6 +202,7 @@ func runC14(e *Engine, r *Report) {
 		}
 	}
 	ruleReaderBoundFromFile(e, r)
+	ruleValidatorExact(e, r)
 }
 
 // accepted idioms of the snapshot file code, each confirmed by reading the site.
